@@ -161,6 +161,7 @@ var punctRe = regexp.MustCompile(`^[^A-Za-z0-9_<\s]+$|^<=?$`)
 // ---------------------------------------------------------------- the rule
 
 func rulePrint(c *Ctx) {
+	regexTextSingleLine(c)
 	lt := c.lexTables()
 	if !lt.ok {
 		c.undecided("anchor:lexer-tables", token.NoPos, "tokenNames / keywordTokens / Lexer.scan switch not extractable (%d/%d/%d entries)", len(lt.tokenText), len(lt.keyword), len(lt.scanText))
@@ -466,6 +467,28 @@ func printQuote(c *Ctx) int {
 		return n
 	}
 	c.ok("quote:writer", sd.Pos(), "string literals are written by %s", q.Name.Name)
+	// the writer works on bytes: ranging over the string decodes it, and a byte that is not valid UTF-8 arrives as
+	// U+FFFD - printed as three other bytes instead of its \xNN escape, the literal's contents change
+	if qf := c.ssaFunc("internal/ast", q.Name.Name); qf != nil {
+		decoded := token.NoPos
+		allInstrs(qf, func(in ssa.Instruction) {
+			if r, ok := in.(*ssa.Range); ok {
+				if b, ok := r.X.Type().Underlying().(*types.Basic); ok && b.Kind() == types.String {
+					decoded = posOr(r.Pos(), qf.Pos())
+				}
+			}
+			if cv, ok := in.(*ssa.Convert); ok {
+				if sl, ok := cv.Type().Underlying().(*types.Slice); ok {
+					if b, ok := sl.Elem().Underlying().(*types.Basic); ok && b.Kind() == types.Int32 {
+						decoded = posOr(cv.Pos(), qf.Pos())
+					}
+				}
+			}
+		})
+		n++
+		c.check(decoded == token.NoPos, "quote:bytewise", posOr(decoded, qf.Pos()), q.Name.Name+" reads the literal byte by byte",
+			q.Name.Name+" decodes the string it quotes (range over the string, or a conversion to runes): a byte that is not valid UTF-8 on its own - \"\\xfe\", Latin-1 text - arrives as U+FFFD, passes the printable test and is written as EF BF BD instead of its \\x escape, so the printed program contains a different string")
+	}
 	// clauses `case r == 'V': sb.WriteString(LIT)`
 	explicit := map[int]string{}
 	accounted := map[*ast.BasicLit]bool{}
